@@ -439,7 +439,7 @@ def replay(ctx, rp):
 # --------------------------------------------------------------------------
 
 def numeric_campaign(ctx, props, want, n_quick, n_thorough, max_modes_quick=4, max_modes_thorough=5, trunc=False,
-                     symm_modes=("default", "default", "ignore", "custom"), allow=None, betas=(0.5, 1.0, 2.0, 5.0, 10.0),
+                     symm_modes=("default", "default", "ignore", "custom"), allow=None, betas=(0.5, 1.0, 2.0, 5.0, 10.0, 30.0, 100.0, 400.0),
                      variants_thorough=("real", "complex"), nontrivial=None, extra=None, ngf=6, nchi=2, nsusc=2, near=0, shifts=(5.0, -3.0, 0.625, 40.0), scales=None):
     r = ctx.rng
     thorough = ctx.tier == "thorough"
